@@ -296,8 +296,8 @@ func (p *Pool) expandedWorker() {
 	lifetime := p.opt.ExpandedLifetime
 	timer := time.NewTimer(lifetime)
 	defer func() {
-		p.wg.Done()
 		atomic.AddInt32(&p.expanded, -1)
+		p.wg.Done()
 	}()
 
 	for {
